@@ -503,6 +503,7 @@ def run(ctx):
                           {"scenario": scenarios[ix], "events": results[ix], "kf": dict(KF_RELOAD, exit=how)})
     # rejected lives: re-run once, validate alone with diagnostics; only reproduced rejections count
     rejected = [ix for ix in sorted(results) if ix not in accepted]
+    unreproduced = []
     for ix in rejected[:6]:
         sc = scenarios[ix]
         _, r1 = validate(ctx, results[ix], "diag-%d" % ix, diag=True)
@@ -513,7 +514,13 @@ def run(ctx):
             dump = os.path.join(ctx.work, "..", "C14-unreproduced-%d.json" % ix)
             with open(dump, "w") as fh:
                 json.dump({"scenario": sc, "events": results[ix], "what": first}, fh)
-            raise Infra("life %d (%s): %s - not reproduced on a second run (kept: %s)" % (ix, sc["kind"], first, os.path.abspath(dump)))
+            # one observation that a second identical life does not show: no verdict about fzf from it (kept for inspection);
+            # several of them in one run mean the observer itself is unreliable
+            unreproduced.append(ix)
+            log("life %d (%s): %s - not reproduced on a second run (kept: %s)" % (ix, sc["kind"], first, os.path.abspath(dump)))
+            if len(unreproduced) > 2:
+                raise Infra("%d rejected lives were not reproduced on a second run: %s" % (len(unreproduced), unreproduced))
+            continue
         if ix in acc2:
             continue        # second run shows only the known deviation
         what = "life %d (%s, %s %s): %s" % (ix, sc["kind"], lifecycle.cfg_args(sc["cfg"]), sc.get("extra"), describe_rejection(evs2, furthest(r2)))
@@ -571,6 +578,7 @@ def run(ctx):
     ctx.cov["terminal_sizes"] = sorted(sizes)[:40]
     ctx.cov["lives_with_deviation"] = {"preview_left": sum(1 for f in accepted.values() if f & 1), "reload_temps_left": sum(1 for f in accepted.values() if f & 2)}
     ctx.cov["rejected_lives"] = len(rejected)
+    ctx.cov["rejected_lives_not_reproduced"] = len(unreproduced)
     for ix, sc in enumerate(scenarios):
         if ix in results and sc["kind"] == "J" and len(sc["steps"]) > 2:
             ctx.sample({"options": lifecycle.cfg_args(sc["cfg"]) + sc["extra"], "steps": sc["steps"],
